@@ -8,9 +8,10 @@
    blake2b (nacl.hash.blake2b, digest_size 32) is the section variable `H`;
    nothing is assumed about it here.  `timing_safe_compare` is equality.
    Expiration times are integers (the harness clock is integral; the real code
-   stores `int(expiration_time)`).  cancel_lease is not reachable remotely and
-   is not modelled; empty mutable slots (owner 0) are modelled because
-   add_lease reuses them. *)
+   stores `int(expiration_time)`).  cancel_lease (mutable) is not reachable from the client
+   protocols but is used by the lease-expiry crawler; it blanks slots in place,
+   so unused slots (owner 0) may sit between used ones: enumeration skips them,
+   add_lease reuses the first one. *)
 From Coq Require Import List NArith Bool.
 From Verif Require Import Lib.Hex Gen.MutConsts Model.MutContainer.
 Import ListNotations.
